@@ -552,6 +552,19 @@ class Interp:
                     a = '!' + type(e).__name__
                 ans[(kind, rel)] = a
                 out.append([kind, rel, a])
+            if ans[('is_dir', rel)] is not True:
+                # (the size of a directory is file-system specific)
+                try:
+                    a = B.query('get_size', path, 'METADATA')
+                except OSError as e:
+                    a = '!' + type(e).__name__
+                out.append(['get_size', rel, a])
+                if self.mode == 'real':
+                    isf = ans[('is_file', rel)]
+                    if isf and not isinstance(a, int) or \
+                            not isf and a != '!FileNotFoundError':
+                        self.viol.append(('C04', 'cons:get_size-vs-is_file',
+                                          rel))
         fr.obs.append(['probe', out])
         if self.mode != 'real':
             return
